@@ -136,6 +136,7 @@ def _external_table():
 
 
 EXTERNAL = _external_table()
+EXTERNAL_CONSTANTS = {'datetime.MAXYEAR': 9999, 'datetime.MINYEAR': 1, 'sys.maxunicode': 0x10FFFF, 'sys.maxsize': 2 ** 63 - 1}
 HIGHER_ORDER = {'itertools.takewhile', 'itertools.dropwhile', 'itertools.accumulate', 'functools.reduce'}
 
 
@@ -212,7 +213,10 @@ class Interp(MiniEval):
             if a[0] == 'symbol' and a[-1] is True and a[1] in self.src.mods:
                 return self.lookup_module_name(self.src.mods[a[1]], a[2])
             if a[0] == 'symbol':
-                return Sym(f'{a[1]}.{a[2]}')
+                ext = f'{a[1]}.{a[2]}'
+                if ext in EXTERNAL_CONSTANTS:
+                    return EXTERNAL_CONSTANTS[ext]
+                return Sym(ext)
         try:
             v = self.inv.folder.lookup(mod.name, name)
 
@@ -440,6 +444,8 @@ class Interp(MiniEval):
                 return self.stubs[key]
             if key in EXTERNAL and EXTERNAL[key] is not None:
                 return EXTERNAL[key]
+            if key in EXTERNAL_CONSTANTS:
+                return EXTERNAL_CONSTANTS[key]
             if base.name in self.src.mods:
                 try:
                     return self.lookup_module_name(self.src.mods[base.name], attr)
@@ -922,7 +928,12 @@ class Interp(MiniEval):
             if callee.name in EXTERNAL and EXTERNAL[callee.name] is not None:
                 real = EXTERNAL[callee.name]
                 a2 = [self.as_callable(a) if isinstance(a, (Closure, PkgFunc, Partial)) else a for a in args]
-                r = real(*a2, **kwargs)
+                try:
+                    r = real(*a2, **kwargs)
+                except (ValueError, OverflowError, ZeroDivisionError) as x:
+                    if not any(isinstance(a, (Obj, Sym)) for a in list(a2) + list(kwargs.values())):
+                        raise Raised(type(x).__name__)       # datetime(10000, 1, 1), ... on concrete operands
+                    raise
                 return r
             if callee.name in HIGHER_ORDER:
                 import functools
